@@ -283,6 +283,10 @@ namespace bluetoe {
                 {
                     return characteristic_value_write_access( args, std::integral_constant< bool, has_write_access >() );
                 }
+                else if ( args.type == details::attribute_access_type::check_write && has_write_access )
+                {
+                    return details::attribute_access_result::success;
+                }
 
                 return details::attribute_access_result::write_not_permitted;
             }
@@ -604,6 +608,12 @@ namespace bluetoe {
                     {
                         return static_cast< attribute_access_result >(
                             invoke_write_handler< write_handler_type >::template call_write_handler< Server, ClientCharacteristicIndex >( args.buffer_offset, args.buffer_size, args.buffer, args.client_config, args.server ) );
+                    }
+                    else if ( args.type == attribute_access_type::check_write )
+                    {
+                        return has_write_access
+                            ? attribute_access_result::success
+                            : attribute_access_result::write_not_permitted;
                     }
                     else
                     {
